@@ -231,3 +231,18 @@ contract(
     modifies=[], allocates=['La.R', 'La.V', 'Ll'],
     properties=['C02', 'C01'],
 )
+
+# ---- SupportComplexDataType._get_children (fields and components): which view is encoded depends on whether the datatype is
+# a base datatype OF THE ELEMENT'S OWN VERSION (C17 / C02: a call-site obligation); the complex case is Element._get_children
+contract(
+    'hl7apy.core:SupportComplexDataType._get_children',
+    sig={'self': 'Field', 'trailing': 'bool'},
+    returns='list[list[Element]?]',
+    requires=['sep(self.children)', 'self.children.element is self', 'self.ordered_children is not None'],
+    ensures=[],
+    raises={'UnsupportedVersion': {}}, raises_only=['UnsupportedVersion'],
+    modifies=[], allocates=['La.R', 'La.V', 'Ll'],
+    call_asserts={'is_base_datatype': [('own_version', 'arg(1) == self.version')]},
+    exact_self=True,
+    properties=['C17', 'C02'],
+)
